@@ -6,12 +6,14 @@ import random
 import sys
 from pathlib import Path
 
-from streamflow.core.data import DataType
+from streamflow.core.data import DataLocation, DataType
 from streamflow.core.deployment import ExecutionLocation
 from streamflow.data.manager import DefaultDataManager
 
 from sfv.framework import Ctx, Property
 from sfv.rt.hexs import hx
+from sfv.rt.loop import run_controlled
+from sfv.translate import srcloc
 
 DRIVER = "Drivers/C21.lean"
 
@@ -145,6 +147,83 @@ def gen_history(rng: random.Random, nloc: int, depth: int, nops: int, wrapped: b
     return ops
 
 
+# ------------------------------------------------------------------------------------------------
+# in-flight histories: get_source_location runs as a task while transfers are in progress
+# ------------------------------------------------------------------------------------------------
+def gen_flight(rng: random.Random):
+    """ops: reg l p | fput l p src|None (a destination in flight: PRIMARY, `available` unset, as transfer_data puts it) |
+    ask p l (start get_source_location(p, d_l) as a task and let it run until it blocks) | inv l p | sym k | avail k | tick"""
+    nloc = rng.randint(2, 3)
+    local0 = rng.random() < 0.4
+    pool = rng.sample(["/a/f", "/b/g", "/a", "/b/e/f", "/e"], rng.randint(1, 3))
+    ops, nreg, nfl, pending = [], 0, 0, []
+    for _ in range(rng.randint(1, 3)):
+        ops.append(("reg", rng.randrange(nloc), rng.choice(pool)))
+        nreg += 1
+    for _ in range(rng.randint(4, 14)):
+        r = rng.random()
+        if r < 0.25:
+            src = rng.randrange(nreg) if rng.random() < 0.7 else None
+            ops.append(("fput", rng.randrange(nloc), rng.choice(pool), src))
+            pending.append(nfl)
+            nfl += 1
+        elif r < 0.5:
+            # mostly ask for a deployment that has something in flight
+            fl = [o for o in ops if o[0] == "fput"]
+            if fl and rng.random() < 0.85:
+                o = rng.choice(fl)
+                # for its own deployment (first loop) or from another one (local / any loops)
+                ops.append(("ask", o[2], o[1] if rng.random() < 0.5 else rng.randrange(nloc)))
+            else:
+                ops.append(("ask", rng.choice(pool), rng.randrange(nloc)))
+        elif r < 0.65:
+            fl = [o for o in ops if o[0] == "fput"]
+            if fl and rng.random() < 0.7:
+                o = rng.choice(fl)
+                pth = o[2] if rng.random() < 0.6 else str(Path(o[2]).parent)
+                ops.append(("inv", o[1], pth))
+            else:
+                ops.append(("inv", rng.randrange(nloc), rng.choice(pool + ["/"])))
+        elif r < 0.85 and pending:
+            k = pending.pop(rng.randrange(len(pending)))
+            if rng.random() < 0.4:
+                ops.append(("sym", k))           # the finished copy turns out to be a symbolic link
+                if rng.random() < 0.25:
+                    ops.append(("tick",))
+            ops.append(("avail", k))
+            ops.append(("tick",))
+        elif r < 0.92:
+            ops.append(("reg", rng.randrange(nloc), rng.choice(pool)))
+            nreg += 1
+        else:
+            ops.append(("tick",))
+    for k in pending:
+        ops.append(("avail", k))
+    ops.append(("tick",))
+    return {"nloc": nloc, "local0": local0, "ops": ops}
+
+
+FLIGHT_CORPUS = [
+    # the destination in flight is invalidated before it becomes available: it must not be chosen
+    {"nloc": 2, "local0": False, "ops": [("reg", 0, "/a/f"), ("fput", 1, "/a/f", 0), ("ask", "/a/f", 1), ("inv", 1, "/a/f"),
+                                          ("avail", 0), ("tick",)]},
+    # ... or completes as a symbolic link
+    {"nloc": 2, "local0": True, "ops": [("reg", 0, "/a/f"), ("fput", 1, "/b/g", 0), ("ask", "/b/g", 1), ("sym", 0), ("avail", 0),
+                                         ("tick",)]},
+    # only the in-flight copy exists and it is lost: None
+    {"nloc": 2, "local0": False, "ops": [("fput", 1, "/e", None), ("ask", "/e", 1), ("ask", "/e", 0), ("inv", 1, "/"), ("avail", 0),
+                                          ("tick",)]},
+    # the same through the loop over local locations and through the loop over all locations
+    {"nloc": 2, "local0": True, "ops": [("fput", 0, "/a/f", None), ("ask", "/a/f", 1), ("inv", 0, "/a/f"), ("avail", 0), ("tick",)]},
+    {"nloc": 3, "local0": False, "ops": [("fput", 2, "/b/g", None), ("ask", "/b/g", 1), ("sym", 0), ("tick",), ("avail", 0), ("tick",)]},
+    # it completes as a primary copy: chosen once available
+    {"nloc": 3, "local0": False, "ops": [("reg", 0, "/a/f"), ("fput", 2, "/a/f", 0), ("ask", "/a/f", 2), ("tick",), ("avail", 0),
+                                          ("tick",)]},
+]
+
+DT = {DataType.PRIMARY: "p", DataType.SYMBOLIC_LINK: "s", DataType.INVALID: "i"}
+
+
 CORPUS = [
     # DESIGN §6 #12: relate after invalidate of the related path is ignored
     [("reg", 0, "/a/f"), ("reg", 1, "/b/g"), ("rel", 0, 1), ("inv", 1, "/b/g"), ("reg", 1, "/b/g"), ("rel", 0, 2)],
@@ -166,16 +245,22 @@ class C21(Property):
     lean_targets = ["SFV.Props.C21", "SFV.Model.Proto"]
     props_files = ["SFV/Props/C21.lean"]
     drivers = [DRIVER]
-    translators = []
+    translators = [srcloc.generate]
     rule = ("random operation histories (register_path, register_relation between earlier registrations, invalidate_location on "
             "registered paths, their ancestors, the root and unknown paths) over path trees of depth 1..4 on 1..3 locations; after "
             "every operation get_data_locations is read for every (node path, location) on the real DefaultDataManager, on the Lean "
             "model of the code as written (driver) and on a reference registry (no valid_paths cache, invalidation = every object of "
             "that location stored in the subtree) = the property monitor; relations join any two registrations (same or different location). Non-trivial = distinct history with an invalidation followed by a "
-            "registration or relation.")
+            "registration or relation. In-flight histories: destinations put as transfer_data puts them (PRIMARY, `available` unset), "
+            "get_source_location started as tasks on a seeded controlled event loop, then invalidations / completion as a symbolic "
+            "link / `available.set()` in every order; monitor: whatever is returned is PRIMARY, available and listed at return time, "
+            "None only when every primary copy found at call time is gone; each resumption compared with the Lean task model.")
     trusted_base = [
         "modelled, not verified: pathlib.Path(p).parts and posixpath.join on normalised absolute paths; dict/list/set semantics; "
-        "DataLocation objects as heap cells with a mutable validity flag; `available` events are not modelled",
+        "DataLocation objects as heap cells with a mutable validity flag; in the task model of get_source_location the heap of "
+        "DataLocation states (deployment, local, data_type, available) between two resumptions is arbitrary (mirrored from the real "
+        "objects in the correspondence check); asyncio: a task runs until it awaits an unset Event",
+        "translator harness/sfv/translate/srcloc.py (ast shape of the three candidate loops -> SFV/Gen/SourceLoc.lean)",
         "a registration on a wrapped location (mount points, get_inner_path) enters the Lean model as its three primitive steps: register outer, register inner, relate",
     ]
     technique = ("Lean 4 model of the trie with object identities (heap) and the valid_paths cache; an inductive invariant over every "
@@ -184,7 +269,9 @@ class C21(Property):
                   "valid_paths cache never hides a valid location, so put's test is the cache-free test (registry_refines_spec); "
                   "invalidate_location always returns (invalidate_total), leaves nothing available on that location at or beneath the "
                   "path, touches no object of another location and only clears validity (invalidate_subtree); a registration always "
-                  "makes the path available (reregister_available); model compared with the real DefaultDataManager after every "
+                  "makes the path available (reregister_available); get_source_location, run as a task while transfers are in flight "
+                  "against an arbitrary environment, only returns a location that is PRIMARY and available at return time "
+                  "(source_is_valid_primary) and returns None only if every candidate was lost (source_none_only_if_lost); model compared with the real DefaultDataManager after every "
                   "operation of random histories, the three histories that failed before the fix kept as regression guards")
     level_note = ("Lean kernel, axioms within {propext, Classical.choice, Quot.sound}; hand-written model tied to the code by the "
                   "correspondence check")
@@ -328,10 +415,146 @@ class C21(Property):
                 break
         ctx.case({"ops": [list(o) for o in ops[:10]], "nloc": nloc}, ("h", nloc, repr(ops)) if nontriv else None, bucket)
 
+    def _flight(self, ctx: Ctx, h, seed, lines, expect, meta, bucket):
+        nloc, ops = h["nloc"], [tuple(o) for o in h["ops"]]
+        replay = {"flight": {"nloc": nloc, "local0": h["local0"], "ops": [list(o) for o in ops]}, "seed": seed}
+        out = {"lines": ["fnew"], "expect": ["ok"], "what": ["fnew"], "fails": [], "asked": 0, "blocked": 0, "lost": 0}
+
+        async def drive():
+            dm = DefaultDataManager(_Context())
+            locs = [ExecutionLocation(name="loc", deployment=f"d{i}", local=(i == 0 and h["local0"])) for i in range(nloc)]
+            regs, flights, tasks, results = [], [], [], {}
+            known, state = [], []                        # the DataLocation objects the model has been told about
+
+            def emit(line, exp, what):
+                out["lines"].append(line)
+                out["expect"].append(exp)
+                out["what"].append(what)
+
+            def sync(objs, what):
+                for o in objs:
+                    if not any(o is k for k in known):
+                        known.append(o)
+                        state.append((o.data_type, o.available.is_set()))
+                        emit(f"floc {int(o.deployment[1:])} {int(o.location.local)} {DT[o.data_type]} {int(o.available.is_set())}", "ok", what)
+                for i, o in enumerate(known):
+                    t, a = state[i]
+                    if o.data_type != t:
+                        emit(f"ftype {i} {DT[o.data_type]}", "ok", what)
+                    if o.available.is_set() and not a:
+                        emit(f"favail {i}", "ok", what)
+                    state[i] = (o.data_type, o.available.is_set())
+
+            def idx(o):
+                return next(i for i, k in enumerate(known) if k is o)
+
+            async def ask(k, path, dep, at_call):
+                src = await dm.get_source_location(path, dep)
+                # no suspension between the return above and this line: the state read here is the state at return time
+                listed = dm.get_data_locations(path)
+                results[k] = src
+                if src is not None:
+                    bad = []
+                    if src.data_type != DataType.PRIMARY:
+                        bad.append(f"its data_type is {src.data_type.name}")
+                    if not src.available.is_set():
+                        bad.append("it is not available")
+                    if not any(src is v for v in listed):
+                        bad.append("get_data_locations does not list it")
+                    if bad:
+                        out["fails"].append(("registry:source-location-not-a-valid-primary",
+                                             f"get_source_location({path!r}, {dep}) returned ({src.deployment}, {src.path}) although "
+                                             + " and ".join(bad) + " at return time"))
+                else:
+                    left = [v for v in at_call if v.data_type == DataType.PRIMARY]
+                    if left:
+                        out["fails"].append(("registry:source-location-missed",
+                                             f"get_source_location({path!r}, {dep}) returned None although "
+                                             f"{[(v.deployment, v.path) for v in left]} found at call time are still PRIMARY"))
+
+            async def tick(what):
+                sync([], what)
+                for _ in range(4):
+                    await asyncio.sleep(0)
+                emit("ftick", ";".join(("w" if k not in results else "n" if results[k] is None else str(idx(results[k])))
+                                       for k in range(len(tasks))) or "-", what)
+
+            for i, op in enumerate(ops):
+                what = f"{op} (op {i})"
+                if op[0] == "reg":
+                    regs.append(dm.register_path(locs[op[1]], op[2]))
+                elif op[0] == "fput":
+                    _, l, pth, src = op
+                    if str(Path(pth).parent) != pth:
+                        dm.register_path(locs[l], str(Path(pth).parent))
+                    dl = DataLocation(location=locs[l], path=pth, relpath=pth, data_type=DataType.PRIMARY)
+                    dm.path_mapper.put(path=pth, data_location=dl)
+                    if src is not None and src < len(regs):
+                        dm.register_relation(regs[src], dl)
+                    flights.append(dl)
+                elif op[0] == "ask":
+                    _, pth, l = op
+                    dep = f"d{l}"
+                    at_call = dm.get_data_locations(path=pth, data_type=DataType.PRIMARY)
+                    same = list({loc for loc in at_call if loc.deployment == dep})            # the iteration orders of the code's sets
+                    local = list({loc for loc in at_call if loc.location.local})
+                    sync(at_call, what)
+                    fmt = lambda xs: ",".join(str(idx(x)) for x in xs) or "~"     # noqa: E731
+                    emit(f"fask {fmt(same)} {fmt(local)} {fmt(at_call)}", "ok", what)
+                    k = len(tasks)
+                    tasks.append(asyncio.create_task(ask(k, pth, dep, list(at_call))))
+                    out["asked"] += 1
+                    await tick(what)
+                    if k not in results:
+                        out["blocked"] += 1
+                elif op[0] == "inv":
+                    try:
+                        dm.invalidate_location(locs[op[1]], op[2])
+                    except KeyError:
+                        pass
+                elif op[0] == "sym":
+                    if op[1] < len(flights):
+                        flights[op[1]].data_type = DataType.SYMBOLIC_LINK
+                elif op[0] == "avail":
+                    if op[1] < len(flights):
+                        flights[op[1]].available.set()
+                else:
+                    await tick(what)
+            for dl in flights:
+                dl.available.set()
+            await tick("end")
+            if len(results) != len(tasks):
+                out["fails"].append(("registry:source-location-hangs", "a get_source_location call did not return although every location is available"))
+            out["lost"] = sum(1 for dl in flights if dl.data_type != DataType.PRIMARY)
+
+        try:
+            run_controlled(drive, seed=seed, timeout=60)
+        except TimeoutError:
+            out["fails"].append(("registry:source-location-hangs", "the history did not finish in 60 s"))
+        for key, detail in out["fails"]:
+            self._fail(ctx, key, f"in-flight history {ops}: {detail}", replay)
+        lines += out["lines"]
+        expect += out["expect"]
+        meta += [(ops, len(ops), w + " [in-flight]", replay) for w in out["what"]]
+        ctx.count("flight:asks", out["asked"])
+        ctx.count("flight:asks-blocked", out["blocked"])
+        nontriv = out["blocked"] > 0 and out["lost"] > 0
+        ctx.case({"flight": [list(o) for o in ops[:10]]}, ("flight", nloc, h["local0"], repr(ops)) if nontriv else None, bucket)
+
     def explore(self, ctx: Ctx) -> None:
         rng = ctx.rng
         self._per_key = {}
         lines, expect, meta = [], [], []
+        for j, h in enumerate(FLIGHT_CORPUS):
+            self._flight(ctx, h, j, lines, expect, meta, "flight:corpus")
+            ctx.corpus_replayed += 1
+        nf = 300 if ctx.tier == "quick" else 3000
+        if ctx.mode == "search":
+            nf *= 3
+        for k in range(nf):
+            if ctx.out_of_time():
+                break
+            self._flight(ctx, gen_flight(rng), ctx.seed * 100003 + k, lines, expect, meta, "flight:random")
         for ops in CORPUS:
             self._run(ctx, ops, 3 if any(o[0] == "wreg" for o in ops) else 2, lines, expect, meta, "corpus")
             ctx.corpus_replayed += 1
@@ -350,18 +573,26 @@ class C21(Property):
                       "random:wrapped" if wrapped else "random")
         got = ctx.lean(DRIVER, lines)
         seen = set()
-        for gl, e, (ops, i, what) in zip(got, expect, meta):
+        for gl, e, m in zip(got, expect, meta):
+            ops, i, what = m[:3]
             if gl != e and id(ops) not in seen:
                 seen.add(id(ops))
-                ctx.disagree("model vs DefaultDataManager", f"{what} after {ops[: i + 1]}: code {e!r}, Lean model {gl!r}", {"ops": ops[: i + 1]})
+                ctx.disagree("model vs DefaultDataManager", f"{what} after {ops[: i + 1]}: code {e!r}, Lean model {gl!r}",
+                             m[3] if len(m) > 3 else {"ops": ops[: i + 1]})
 
     def replay(self, ctx: Ctx, data) -> None:
         r = data.get("replay") or (data.get("no_longer_checks") or [{}])[0].get("case") or {}
+        lines, expect, meta = [], [], []
+        self._per_key = {}
+        if "flight" in r:
+            self._flight(ctx, r["flight"], r.get("seed", 0), lines, expect, meta, "replay")
+            got = ctx.lean(DRIVER, lines)
+            for ln, gl, e in zip(lines, got, expect):
+                print(f"{ln:40s} code {e}   model {gl}" + ("" if gl == e else "   <-- model differs"))
+            return
         if "ops" not in r:
             return super().replay(ctx, data)
         ops = [tuple(o) for o in r["ops"]]
-        lines, expect, meta = [], [], []
-        self._per_key = {}
         self._run(ctx, ops, r.get("nloc", 3), lines, expect, meta, "replay")
         got = ctx.lean(DRIVER, lines)
         for ln, gl, e in zip(lines, got, expect):
